@@ -321,6 +321,8 @@ func c11Chains(r *hk.Run, rng *hk.Rand, n int) {
 		}
 		hops := rng.Range(0, 5)
 		var targets []string
+		var targetAuth []authority
+		var oraclePols []func(t authority, via []authority) bool
 		cur := init
 		for j := 0; j < hops; j++ {
 			var t authority
@@ -335,6 +337,7 @@ func c11Chains(r *hk.Run, rng *hk.Rand, n int) {
 				}
 			}
 			targets = append(targets, t.render())
+			targetAuth = append(targetAuth, t)
 			cur = t
 		}
 		// policy set
@@ -346,18 +349,45 @@ func c11Chains(r *hk.Run, rng *hk.Rand, n int) {
 			case 0:
 				lim := rng.Range(0, 5)
 				pols, coqPols = append(pols, req.MaxRedirectPolicy(lim)), append(coqPols, "PMax "+hk.CoqZ(int64(lim)))
+				oraclePols = append(oraclePols, func(t authority, via []authority) bool { return len(via) < lim })
 			case 1:
 				pols, coqPols = append(pols, req.SameHostRedirectPolicy()), append(coqPols, "PSameHost")
+				oraclePols = append(oraclePols, func(t authority, via []authority) bool { return oracleHostname(t) == oracleHostname(via[0]) })
 			case 2:
 				pols, coqPols = append(pols, req.SameDomainRedirectPolicy()), append(coqPols, "PSameDomain")
+				oraclePols = append(oraclePols, func(t authority, via []authority) bool { return oracleDomain(t) == oracleDomain(via[0]) })
 			case 3:
-				hs := append([]string{init.render()}, targets...)
-				hs = hs[:rng.Range(1, len(hs))]
+				as := append([]authority{init}, targetAuth...)
+				as = as[:rng.Range(1, len(as))]
+				var hs []string
+				for _, a := range as {
+					hs = append(hs, a.render())
+				}
 				pols, coqPols = append(pols, req.AllowedHostRedirectPolicy(hs...)), append(coqPols, "PAllowedHost "+hk.CoqStrList(hs))
+				oraclePols = append(oraclePols, func(t authority, via []authority) bool {
+					for _, a := range as {
+						if oracleHostname(a) == oracleHostname(t) {
+							return true
+						}
+					}
+					return false
+				})
 			case 4:
-				hs := append([]string{init.render()}, targets...)
-				hs = hs[:rng.Range(1, len(hs))]
+				as := append([]authority{init}, targetAuth...)
+				as = as[:rng.Range(1, len(as))]
+				var hs []string
+				for _, a := range as {
+					hs = append(hs, a.render())
+				}
 				pols, coqPols = append(pols, req.AllowedDomainRedirectPolicy(hs...)), append(coqPols, "PAllowedDomain "+hk.CoqStrList(hs))
+				oraclePols = append(oraclePols, func(t authority, via []authority) bool {
+					for _, a := range as {
+						if oracleDomain(a) == oracleDomain(t) {
+							return true
+						}
+					}
+					return false
+				})
 			case 5:
 				var names []string
 				a, ck := rng.Bool(), rng.Bool()
@@ -372,6 +402,7 @@ func c11Chains(r *hk.Run, rng *hk.Rand, n int) {
 			case 6:
 				if rng.Chance(30) {
 					pols, coqPols = append(pols, req.NoRedirectPolicy()), append(coqPols, "PNo")
+					oraclePols = append(oraclePols, func(t authority, via []authority) bool { return false })
 				} else {
 					pols, coqPols = append(pols, nil), append(coqPols, "PNil")
 				}
@@ -385,8 +416,18 @@ func c11Chains(r *hk.Run, rng *hk.Rand, n int) {
 			var d net.Dialer
 			return d.DialContext(ctx, network, addr)
 		})
-		resp, err := c.R().SetHeader("X-Chain", id).SetHeader("Authorization", "Bearer secret").SetHeader("Cookie", "sid=secret").
-			Get("http://" + init.render() + "/start")
+		rq := c.R().SetHeader("X-Chain", id)
+		credLevel := rng.Intn(3)
+		switch credLevel {
+		case 0: // request level
+			rq.SetHeader("Authorization", "Bearer secret").SetHeader("Cookie", "sid=secret")
+		case 1: // client level
+			c.SetCommonHeader("Authorization", "Bearer secret").SetCommonHeader("Cookie", "sid=secret")
+		case 2: // client-level helpers
+			c.SetCommonBearerAuthToken("secret").SetCommonCookies(&http.Cookie{Name: "sid", Value: "secret"})
+		}
+		r.Count(fmt.Sprintf("chain.credlevel=%d", credLevel))
+		resp, err := rq.Get("http://" + init.render() + "/start")
 		c.GetTransport().CloseIdleConnections()
 		mu.Lock()
 		obs := hits[id]
@@ -413,6 +454,31 @@ func c11Chains(r *hk.Run, rng *hk.Rand, n int) {
 			// refused but everything contacted: only legitimate if the final response itself was a 302 without script (cannot happen here)
 			r.Fail(hk.Failure{Sig: "chain:refused-but-all-sent", What: "chain reported refused although every target received a request",
 				Input: map[string]interface{}{"policies": coqPols, "init": init.render(), "targets": targets}, Got: obs})
+		}
+		// oracle for the hop decisions: re-evaluate every hop with the independent
+		// host-identity oracle; the number of requests sent must be 1 + the number of
+		// leading hops every policy permits.
+		{
+			via := []authority{init}
+			wantSent := 1
+			for _, t := range targetAuth {
+				ok := true
+				for _, op := range oraclePols {
+					if !op(t, via) {
+						ok = false
+						break
+					}
+				}
+				if !ok {
+					break
+				}
+				wantSent++
+				via = append(via, t)
+			}
+			if len(obs) != wantSent {
+				r.Fail(hk.Failure{Sig: "chain:hops-followed", What: "number of hops followed differs from what the configured policies permit (every policy must permit each hop)",
+					Input: map[string]interface{}{"policies": coqPols, "init": init.render(), "targets": targets}, Got: len(obs), Want: wantSent})
+			}
 		}
 		// oracle for header carrying (Go's cross-origin rule, sticky): once a hop leaves the
 		// initial host's domain-or-subdomain set, Authorization/Cookie must not be delivered
